@@ -76,10 +76,16 @@ def stores(prog: Program, resolver: Resolver, qual: str):
 
 def check_equate(rep: Report, prog: Program, resolver: Resolver) -> None:
     fi = prog.func("conversions.equate")
-    for args, evs, r in stores(prog, resolver, "conversions.equate"):
+    runs = []
+    for args, evs_all, r in stores(prog, resolver, "conversions.equate"):
+        # one table per combination of helper outcomes (a helper that unprefixes on one arm only must not hide behind the other)
+        for plan in sorted({e.plan for e in evs_all}) or [0]:
+            runs.append((args, [e for e in evs_all if e.plan == plan], r, plan))
+    for args, evs, r, plan in runs:
         a, b = args["a"], args["b"]
         if not (isinstance(a, QuantV) and isinstance(b, QuantV)):
             continue
+        arm = next((" | " + " & ".join(("" if v_ else "not ") + t_ for t_, v_ in o.path if t_.startswith("<")) for o in r.outcomes if o.plan == plan and any(t_.startswith("<") for t_, _ in o.path)), "")
         table: Dict[Tuple[str, str], Tuple[UnitV, UnitV, Rat, ast.AST]] = {}
         for e in evs:
             ks = e.data["keys"]
@@ -101,7 +107,7 @@ def check_equate(rep: Report, prog: Program, resolver: Resolver) -> None:
             if fa:
                 rhs = rhs.subst(fa, rel)
                 lhs = lhs.subst(fa, rel)
-            key = f"conversions.equate:{ast.unparse(node)}"
+            key = f"conversions.equate:{ast.unparse(node)}{arm}"
             rep.check("R05.1", key, lhs == rhs,
                       f"`{ast.unparse(node)}` stores {ratio!r} at [{describe(ux)}][{describe(uy)}]; given val(a) = val(b) the factor "
                       f"from the first unit to the second is {rhs!r} (swapped or prefix-unaware store)", fi.where(node))
@@ -535,6 +541,58 @@ def check_reduce_dimension(rep: Report, prog: Program) -> None:
                   "every hop of the reduced path is lifted by the wrong power (1 acre^2 -> 3.6e18 ft^4)", fi.where(r))
 
 
+def check_match_direction(rep: Report, prog: Program, rid: str = "R05.9") -> None:
+    """_match_factors(x, y) yields steps (ratio, from-x, to-y, exponent).  _plan_conversion calls it once
+    in the plan's direction and once with the sides exchanged; the steps of the exchanged call point the
+    wrong way and have to be turned round (positions 1 and 2 swapped) before they join the plan."""
+    fi = prog.func("conversions._plan_conversion")
+    ps = fi.params()
+    side: Dict[str, str] = {}
+    for n in ast.walk(fi.node):
+        if isinstance(n, ast.Assign) and len(n.targets) == 1 and isinstance(n.targets[0], ast.Name) and isinstance(n.value, ast.Call) \
+                and ast.unparse(n.value.func) == "_splat" and n.value.args and isinstance(n.value.args[0], ast.Name) and n.value.args[0].id in ps[:2]:
+            side[n.targets[0].id] = "start" if n.value.args[0].id == ps[0] else "end"
+    calls = [c for c in ast.walk(fi.node) if isinstance(c, ast.Call) and ast.unparse(c.func) == "_match_factors" and len(c.args) == 2
+             and all(isinstance(a, ast.Name) and a.id in side for a in c.args)]
+    if len(calls) < 2:
+        raise AnalysisError("conversions._plan_conversion: expected _match_factors to be called in both directions over the _splat()ed sides")
+    for c in calls:
+        d = (side[c.args[0].id], side[c.args[1].id])  # type: ignore[union-attr]
+        key = f"_plan_conversion:_match_factors({d[0]}, {d[1]})"
+        parent = getattr(c, "_parent", None)
+        swapped = None
+        if isinstance(parent, ast.comprehension):
+            comp = getattr(parent, "_parent", None)
+            tgt = parent.target
+            elt = getattr(comp, "elt", None)
+            if isinstance(tgt, ast.Tuple) and len(tgt.elts) == 4 and isinstance(elt, ast.Tuple) and len(elt.elts) == 4:
+                t1, t2 = ast.unparse(tgt.elts[1]), ast.unparse(tgt.elts[2])
+                e1, e2 = ast.unparse(elt.elts[1]), ast.unparse(elt.elts[2])
+                swapped = (e1, e2) == (t2, t1)
+                same = (e1, e2) == (t1, t2)
+                if not swapped and not same:
+                    swapped = None
+        elif isinstance(parent, ast.For) and parent.iter is c and isinstance(parent.target, ast.Tuple) and len(parent.target.elts) == 4:
+            t1, t2 = ast.unparse(parent.target.elts[1]), ast.unparse(parent.target.elts[2])
+            for a in ast.walk(parent):
+                if isinstance(a, ast.Tuple) and len(a.elts) == 4 and isinstance(a.ctx, ast.Load):
+                    e1, e2 = ast.unparse(a.elts[1]), ast.unparse(a.elts[2])
+                    if (e1, e2) == (t2, t1):
+                        swapped = True
+                    elif (e1, e2) == (t1, t2):
+                        swapped = False
+        else:
+            swapped = False   # used as it comes (plan += _match_factors(..))
+        if swapped is None:
+            rep.defer(AnalysisError(f"{key}: cannot tell how its steps are re-tupled"))
+            continue
+        want = d == ("end", "start")
+        rep.check(rid, key, swapped == want,
+                  f"the steps of _match_factors({c.args[0].id}, {c.args[1].id}) are " + ("not turned round" if want else "turned round") +  # type: ignore[union-attr]
+                  f" before joining the plan: they convert {'end -> start' if d[0] == 'end' else 'start -> end'} and the plan runs start -> end, so that step "
+                  "multiplies by the inverse ratio (3 tsp x 2 s -> 1.2e6 m^3 s)", fi.where(c))
+
+
 def check_in_unit(rep: Report, prog: Program, rid: str) -> None:
     """The public entry Quantity.in_unit is conversions.convert(self, unit) and nothing else: every other
     rule about conversion (affine map, prefix step last, offsets scaled) is proved about convert, so a
@@ -574,6 +632,7 @@ def run(rep: Report) -> None:
     rep.rule("R05.2", "convert applies an affine map whose coefficients do not depend on the magnitude: updates are "
              "magnitude*c / magnitude+c, no branch tests the magnitude, the plan depends on the units only", floor=4)
     rep.rule("R05.3", "every return of convert is Quantity(<magnitude>, <the requested unit, unmodified>)", floor=1)
+    rep.rule("R05.9", "the steps of the exchanged _match_factors call are turned round before they join the plan (and those of the forward call are not)", floor=2)
     rep.rule("R05.8", "_reduce_dimension returns the degree of the roots it actually took (or 1 with the units unchanged)", floor=2)
     rep.rule("R05.7", "Quantity.in_unit is conversions.convert(self, unit), unchanged, on every path", floor=1)
     rep.rule("R05.4", "path search: both tables read in one direction, recursion from the intermediate to end, hops ordered "
@@ -586,6 +645,7 @@ def run(rep: Report) -> None:
     check_convert(rep, prog)
     check_in_unit(rep, prog, "R05.7")
     check_reduce_dimension(rep, prog)
+    check_match_direction(rep, prog)
     check_path_search(rep, prog)
     check_lifting(rep, prog)
     check_declared(rep)
